@@ -74,6 +74,60 @@ def _evaluate_config(cfg):
         return {"error": f"{type(e).__name__}: {e}"[:300]}
 
 
+REFORMULATE_STEPS = (dict(), dict(stable="all"), dict(scalar_initial_mass=True), dict(), dict(stable="some", scalar_initial_mass=True), dict(alignment="axis"),
+                     dict(helicity_couplings=True), dict())
+
+
+def _evaluate_history(arg):
+    """One builder, formulate() after every change of its configuration: the postconditions of every model of the sequence."""
+    import dataclasses
+
+    name, formalism, dynamics = arg
+    models.quiet()
+    base = models.Config(name, formalism, dynamics=dynamics)
+    out = []
+    try:
+        b = models.make_builder(base)
+    except Exception as e:  # noqa: BLE001
+        return [{"step": 0, "tag": base.tag, "error": f"{type(e).__name__}: {e}"[:300]}]
+    for k, row in enumerate(REFORMULATE_STEPS):
+        cfg = dataclasses.replace(base, **row)
+        try:
+            models.reconfigure(b, cfg)
+            out.append({"step": k, "tag": cfg.tag, "post": postconditions(b.formulate())})
+        except Exception as e:  # noqa: BLE001
+            out.append({"step": k, "tag": cfg.tag, "error": f"{type(e).__name__}: {e}"[:300]})
+    return out
+
+
+def reformulate_histories(chk: Check) -> None:
+    """formulate() is called again on the same builder after its configuration changed (the documented way to compare settings): every
+    model of the sequence meets P1/P2/A/K. (That each equals the model of a fresh builder is C06's subject.)"""
+    import concurrent.futures as cf
+    import multiprocessing as mp
+
+    reactions = ["jpsi_gamma_pi0_pi0", "jpsi_pi0_pip_pim", "lambdac_p_k_pi"] + (["d1_k_k_k0", "jpsi_kk_pipi", "etac_lambda_lambdabar", "d0_k_3pi_cascade"] if chk.tier == "thorough" else [])
+    args = [(r, f, "bwff" if f == "canonical-helicity" or r.startswith("jpsi_gamma") or r.startswith("jpsi_pi0") else "bw") for r in reactions for f in ("helicity", "canonical-helicity")]
+    with cf.ProcessPoolExecutor(max_workers=min(16, len(args)), mp_context=mp.get_context("fork")) as pool:
+        results = list(pool.map(_evaluate_history, args))
+    for arg, steps in zip(args, results):
+        def replay(_m=None, arg=arg):
+            for st in _evaluate_history(arg):
+                bad = {"error": st["error"]} if "error" in st else {k: v[1] for k, v in st["post"].items() if not v[0]}
+                if bad:
+                    return {"reproduced": True, "input": f"one builder for {arg[0]}/{arg[1]} (dynamics {arg[2]}); formulate() after each of the configuration changes {list(REFORMULATE_STEPS[:st['step'] + 1])}",
+                            "observed": bad, "expected": "every model of the sequence meets the four postconditions"}
+            return {"reproduced": False}
+
+        for st in steps:
+            name = f"step{st['step']}:{st['tag']}"
+            if "error" in st:
+                chk.struct(f"reformulate.succeeds[{name}]", False, F, witness=st["error"], replay=replay, bounded=True)
+                continue
+            for clause, (ok, wit) in st["post"].items():
+                chk.struct(f"reformulate.ens.{clause}[{name}]", ok, F, witness={"history": [dict(r) for r in REFORMULATE_STEPS[:st["step"] + 1]], "offending": wit}, replay=replay, bounded=True)
+
+
 def build(chk: Check) -> None:
     models.quiet()
     chk.assume("bounded in the space of reactions: zoo x configurations (vlib/zoo.py, vlib/models.py)")
@@ -108,6 +162,7 @@ def build(chk: Check) -> None:
     chk.extra["configurations"] = len(cfgs)
     chk.extra["exhaustive_over_configuration_product"] = chk.tier == "thorough"
 
+    reformulate_histories(chk)
     closure_lemma(chk)
     define_missing_amplitudes_contract(chk)
 
